@@ -63,21 +63,21 @@ def front_mod(path):
 
 
 def run(prog, chk):
-    isolation(prog, chk)
-    one_core(prog, chk)
-    frontend_verdicts(prog, chk)
-    failure_signal(prog, chk)
-    output_file(prog, chk)
-    same_file(prog, chk)
-    checked_paths_are_used(prog, chk)
-    cli_config_mapping(prog, chk)
-    output_replaced_unconditionally(prog, chk)
-    server_stack(prog, chk)
-    input_bytes_untouched(prog, chk)
+    chk.rule(isolation, prog, chk)
+    chk.rule(one_core, prog, chk)
+    chk.rule(frontend_verdicts, prog, chk)
+    chk.rule(failure_signal, prog, chk)
+    chk.rule(output_file, prog, chk)
+    chk.rule(same_file, prog, chk)
+    chk.rule(checked_paths_are_used, prog, chk)
+    chk.rule(cli_config_mapping, prog, chk)
+    chk.rule(output_replaced_unconditionally, prog, chk)
+    chk.rule(server_stack, prog, chk)
+    chk.rule(input_bytes_untouched, prog, chk)
     from props import C06
-    C06.hash_iteration(prog, chk)  # the same bytes from every front-end presupposes that no unordered iteration reaches the output
+    chk.rule(C06.hash_iteration, prog, chk)  # the same bytes from every front-end presupposes that no unordered iteration reaches the output
     from props import C01
-    C01.utf8_boundary(prog, chk)  # transform_str converts the output to a String: every front-end agrees only if all input is validated up front
+    chk.rule(C01.utf8_boundary, prog, chk)  # transform_str converts the output to a String: every front-end agrees only if all input is validated up front
 
 
 TEXT_MODE_READS = ("std::io::BufRead::lines", "std::io::BufRead::read_line", "std::io::Read::read_to_string", "std::io::read_to_string", "std::string::String::from_utf8_lossy", "std::fs::read_to_string", "std::io::Stdin::lines", "std::io::Stdin::read_line")
